@@ -27,7 +27,11 @@ const PipeCapacity = 64 * 1024
 
 //go:norace
 func NewPipe(name string) *Pipe {
-	return &Pipe{Name: name, capacity: PipeCapacity}
+	c := PipeCapacity
+	if s := S; s != nil && s.PipeCap > 0 {
+		c = s.PipeCap
+	}
+	return &Pipe{Name: name, capacity: c}
 }
 
 // ErrClosedPipe is returned when using one's own closed end.
